@@ -26,6 +26,7 @@ def _heap_shift(n):
 def main(argv):
     spec_path, out_path = argv[1], argv[2]
     keep = _heap_shift(int(os.environ.get("GSIM_HEAP_SHIFT", "0")))
+    os.environ["GSIM_NO_WARMUP"] = "1"     # nothing of graphtage runs in this process before the history itself
     from . import core
     core.use_repo()
     from .seams import SEAMS
